@@ -10,6 +10,7 @@ is additive under splits at points ≠ 0 and non-negative on rectangles away fro
 import RpylibModel.Proofs.Lemmas.C01Basic
 import Mathlib.Algebra.BigOperators.Field
 import RpylibModel.Proofs.Lemmas.C01Box
+import RpylibModel.Proofs.Lemmas.C01Step
 
 set_option linter.dupNamespace false
 set_option linter.unusedVariables false
@@ -777,6 +778,42 @@ theorem lebesgue_isBoxMass3 : IsBoxMass3 (fun a c y z u v => (c - a) * (z - y) *
    fun a c y z t u v _ _ _ _ _ _ => by ring,
    fun a c y z u v h1 h2 h3 _ => mul_nonneg (mul_nonneg (by linarith) (by linarith)) (by linarith)⟩
 
+/-- the synthetic measure of the exact stream (any knots, heights ≥ 0) satisfies the hypotheses, on every interval -/
+theorem stepMass_isMass (knots heights : List ℚ) (hh : ∀ h ∈ heights, 0 ≤ h) : IsMass (stepMass knots heights) := by
+  constructor
+  · intro a b c hab hbc _
+    induction heights generalizing knots with
+    | nil => cases knots with
+      | nil => simp [stepMass]
+      | cons k0 t => cases t <;> simp [stepMass]
+    | cons h hs ih =>
+      cases knots with
+      | nil => simp [stepMass]
+      | cons k0 t =>
+        cases t with
+        | nil => simp [stepMass]
+        | cons k1 ks =>
+          rw [stepMass_cons, stepMass_cons, stepMass_cons, piece_add k0 k1 h a b c hab hbc,
+            ih (k1 :: ks) (fun x hx => hh x (List.mem_cons_of_mem _ hx))]
+          ring
+  · intro a b hab _
+    induction heights generalizing knots with
+    | nil => cases knots with
+      | nil => simp [stepMass]
+      | cons k0 t => cases t <;> simp [stepMass]
+    | cons h hs ih =>
+      cases knots with
+      | nil => simp [stepMass]
+      | cons k0 t =>
+        cases t with
+        | nil => simp [stepMass]
+        | cons k1 ks =>
+          rw [stepMass_cons]
+          exact add_nonneg (piece_nonneg k0 k1 h a b (hh h (List.mem_cons_self)))
+            (ih (k1 :: ks) (fun x hx => hh x (List.mem_cons_of_mem _ hx)))
+example : IsMass (stepMass [-8, -1/2, 1/2, 8] [1, 0, 2]) :=
+  stepMass_isMass _ _ (by intro h hh; simp at hh; rcases hh with rfl | rfl | rfl <;> norm_num)
+
 /-- a 7-point non-uniform axis with the origin at index 3 -/
 theorem example_axisOK : AxisOK [-4, -2, -1, 0, 1, 3, 7] 3 :=
   ⟨by simp [StrictInc]; norm_num, by norm_num, by simp, by simp [pt]⟩
@@ -820,10 +857,11 @@ example : intensityNd amid [[-1, 0, 1], [-1, 0, 1]] 1 (box2 (fun a c y z => (c -
   simp [intensityNd, blocks, cartesian, parts, len0, box2, hLeft, hRight, leftPoint, rightPointN, pt, amid]
   norm_num
 
-/-- negation witness for the n-d clamp (spatial.py:93): with axes of unequal length the second axis is clamped with
-    the first axis' length, and the state with coordinate 3 on it lies *outside* its own cell -/
+/-- negation witness for the n-d clamp (spatial.py:93): with axes of unequal length (same origin index) the second
+    axis is clamped with the first axis' length, and its state with coordinate 3 lies *outside* its own cell
+    (replayed on the implementation by probe `c01.nd.unequal_axes`) -/
 theorem unequal_axes_break_cells :
-    cellHiN amid (len0 [[-1, 0, 1], [-2, -1, 0, 1, 2]]) [-2, -1, 0, 1, 2] 3 < pt [-2, -1, 0, 1, 2] 3 := by
+    cellHiN amid (len0 [[-1, 0, 1], [-1, 0, 1, 2, 3]]) [-1, 0, 1, 2, 3] 3 < pt [-1, 0, 1, 2, 3] 3 := by
   simp [cellHiN, rightPointN, len0, pt, amid]
   norm_num
 
